@@ -86,22 +86,27 @@ QuoteJoin(args, sq) == JoinFrom(args, QuoteChars(sq), 1)
 RECURSIVE Flat(_)
 Flat(toks) == IF toks = <<>> THEN <<>> ELSE Head(toks) \o Flat(Tail(toks))
 
-RECURSIVE IsSubseqFrom(_, _, _, _)
-IsSubseqFrom(x, y, i, j) == IF i > Len(x) THEN TRUE
-                            ELSE IF j > Len(y) THEN FALSE
-                            ELSE IF x[i] = y[j] THEN IsSubseqFrom(x, y, i + 1, j + 1)
-                            ELSE IsSubseqFrom(x, y, i, j + 1)
-IsSubseq(x, y) == IsSubseqFrom(x, y, 1, 1)
-
-Syntax(sq) == QuoteChars(sq) \cup {BS, SP, TAB}          \* the quoting syntax: quotes, backslashes, whitespace
-Keep(s, S) == SelectSeq(s, LAMBDA ch : ch \notin S)
+(* Which characters of the input belong to the quoting syntax and may therefore be missing from the tokens:
+   separating whitespace, quote characters, and *escaping* backslashes = backslashes of a run that is directly
+   followed by an allowed quote character (2N or 2N+1 of them stand for N).  Every other character -- letters, a
+   quote character that is not allowed, backslashes not followed by a quote (also a trailing run) -- must come out. *)
+RECURSIVE RunEnd(_, _)
+RunEnd(y, i) == IF i <= Len(y) /\ y[i] = BS THEN RunEnd(y, i + 1) ELSE i       \* first index after the backslash run at i
+Deletable(y, i, sq) == \/ IsWs(y[i])
+                       \/ y[i] \in QuoteChars(sq)
+                       \/ (y[i] = BS /\ LET e == RunEnd(y, i) IN e <= Len(y) /\ y[e] \in QuoteChars(sq))
+\* x (from index i) is obtained from y (from index j) by deleting only deletable characters
+RECURSIVE Obtainable(_, _, _, _, _)
+Obtainable(x, i, y, j, sq) ==
+    IF j > Len(y) THEN i > Len(x)
+    ELSE LET take == i <= Len(x) /\ x[i] = y[j] /\ Obtainable(x, i + 1, y, j + 1, sq) IN
+         IF Deletable(y, j, sq) THEN take \/ Obtainable(x, i, y, j + 1, sq) ELSE take
 
 \* split . join . quote = identity
 LawInverse(c, o) == c.quoted => o.toks = c.args
-\* the produced characters are the input with only quoting-syntax characters deleted:
-\* nothing invented / reordered (subsequence), nothing outside the syntax lost (same non-syntax projection)
-LawNoLoss(c, o) == /\ IsSubseq(Flat(o.toks), c.line)
-                   /\ Keep(Flat(o.toks), Syntax(c.sq)) = Keep(c.line, Syntax(c.sq))
+\* splitting never loses or invents characters outside the quoting syntax: the produced characters, in order, are
+\* the input with only quoting-syntax characters deleted
+LawNoLoss(c, o) == Obtainable(Flat(o.toks), 1, c.line, 1, c.sq)
 
 LawNames == <<"inverse", "noloss">>
 Law(n, c, o) == CASE n = "inverse" -> LawInverse(c, o) [] n = "noloss" -> LawNoLoss(c, o)
